@@ -191,7 +191,7 @@ def groups_to_tokens(groups):
     return toks
 
 
-def render(spec, rng=None, second_side=True, info_block=None, noise=False):
+def render(spec, rng=None, second_side=True, info_block=None, noise=False, exotic_ws=False):
     """Render a spec in the documented file format.
 
     noise: 1-3 blanks/tabs between tokens and trailing blanks (never inside a
@@ -203,7 +203,8 @@ def render(spec, rng=None, second_side=True, info_block=None, noise=False):
     def sep():
         if not noise:
             return ' '
-        return ''.join(r.choice([' ', ' ', '\t']) for _ in range(r.randint(1, 3)))
+        chars = [' ', ' ', '\t'] + (['\x0c', '\x0b'] if exotic_ws else [])
+        return ''.join(r.choice(chars) for _ in range(r.randint(1, 3)))
 
     def trail():
         if not noise:
@@ -291,8 +292,30 @@ def make_opts(rng, spec, ncrit=None, stab=None, pc=None, twopl=None,
     return {'twopl': bool(twopl), 'stab': bool(stab), 'pc': bool(pc), 'crits': crits}
 
 
+def crit_of_flag(a):
+    """Criterion name for a short or long criterion flag, else None."""
+    for short, lng in SOLVER_LONG.items():
+        if a in (short, lng) and short[1:] in CRITS:
+            return short[1:]
+    return None
+
+
 def ordered_crits(opts):
     return sorted(opts['crits'], key=lambda c: c[1])
+
+
+SOLVER_LONG = {'-f': '-filename', '-na': '-numagents', '-twopl': '-twosidedpreferencelists', '-pc': '-projectclosures',
+               '-stab': '-stability', '-maxsize': '-maximisesize', '-minsize': '-minimisesize', '-gen': '-generous',
+               '-gre': '-greedy', '-mincost': '-minimisecost', '-minsqcost': '-minimisesquaredcost',
+               '-lmb': '-loadmaxbalanced', '-lsb': '-loadsumbalanced', '-bf': '-bruteforce',
+               '-mincostlsb': '-minimisecostloadsumbalanced'}
+
+
+def long_names(argv, rng, table, rate=0.15):
+    """Replace documented short flags by their documented long forms at random."""
+    if rng is None:
+        return argv
+    return [table[a] if a in table and rng.random() < rate else a for a in argv]
 
 
 def opts_to_argv(opts, rng=None, extra=()):
@@ -312,7 +335,7 @@ def opts_to_argv(opts, rng=None, extra=()):
         chunks.append(list(e))
     if rng is not None:
         rng.shuffle(chunks)
-    return [t for c in chunks for t in c]
+    return long_names([t for c in chunks for t in c], rng, SOLVER_LONG)
 
 
 def even_spread(total, n):
@@ -330,3 +353,33 @@ def make_spec_bf(rng, cap=20000, **kw):
             return spec
     kw = dict(kw, shape='dense', max_s=4, max_p=4)
     return make_spec(rng, **kw)
+
+
+def make_big_spec(rng, na=None):
+    """10-14 students AND 11-14 projects/hospitals (two-digit ids on both sides,
+    ties anywhere); not meant for enumeration."""
+    spec = make_spec(rng, na=na, max_s=14, min_s=10, max_p=6, max_l=4, shape='dense')
+    ns = spec['ns']
+    np_ = rng.randint(11, 14)
+    nl = np_ if spec['na'] == 2 else rng.choice([3, 4, 11, 12])
+    st = []
+    for s_ in range(ns):
+        k = rng.randint(2, 4)
+        st.append(random_groups(rng, rng.sample(range(1, np_ + 1), k), rng.choice(['none', 'low', 'mid', 'high', 'all'])))
+    puq = [rng.choice([1, 2, 3]) for _ in range(np_)]
+    plq = [0 if rng.random() < 0.8 else 1 for _ in range(np_)]
+    if spec['na'] == 2:
+        plec = list(range(1, np_ + 1))
+        llq, lt, luq = list(plq), list(puq), list(puq)
+    else:
+        plec = [rng.randint(1, nl) for _ in range(np_)]
+        luq = [max(1, sum(puq[j] for j in range(np_) if plec[j] == k + 1)) for k in range(nl)]
+        llq = [0] * nl
+        lt = [rng.randint(0, u) for u in luq]
+    lec = []
+    for k in range(nl):
+        studs = [x + 1 for x in range(ns) if any(plec[p - 1] == k + 1 for g in st[x] for p in g)]
+        rng.shuffle(studs)
+        lec.append(random_groups(rng, studs, rng.choice(['none', 'low', 'mid', 'high', 'all'])))
+    return {'na': spec['na'], 'ns': ns, 'np': np_, 'nl': nl, 'st': st, 'plq': plq, 'puq': puq, 'plec': plec,
+            'llq': llq, 'lt': lt, 'luq': luq, 'lec': lec, 'shape': 'big'}
